@@ -195,7 +195,7 @@ def check_C09(ctx, rep):
                 expect_equiv(rep, "R23", "NumCast::from route table", "numcast-routes", tr, ref, b,
                              "to_f64: |f| <= 2^53 -> from(f); else to_i128 -> from, else to_u128 -> from, else from(f); no f64: to_i128, to_u128, None")
     from . import rules_total
-    rules_total.totality(rep, f, "R24", rules_total.entries_C09(f), "conversions", min_sites=20)
+    rules_total.totality(rep, f, "R24", rules_total.entries_C09(f), "conversions", min_sites=0, min_entries=60)
     rep.floor("R21", len([o for o in rep.obl if o["rule"] == "R21"]), 22, "small-int and float conversions")
     rep.floor("R22", len([o for o in rep.obl if o["rule"] == "R22"]), 12, "wide-int conversions")
     rep.floor("R23", n23, 26, "num_traits conversion routes")
